@@ -184,6 +184,16 @@ def gen_loads_for_bar(rng, bid, nmax=6, allow_mz_dist=True, nodal_only=False):
                 val2 = val if rng.random() < 0.4 else Fr(rng.choice([-1, 1]) * rng.choice([0, 3, 80, 1200]), rng.choice([1, 10]))
                 loads.append({"kind": "d", "term": term, "local": local, "bar": bid,
                               "t0": a, "v0": val, "t1": b, "v1": val2})
+                if b < 1 and rng.random() < 0.3:
+                    # a stepped load: the next one starts exactly where this one ends, with another value
+                    # (or along the other axis), in the same frame of reference
+                    e = rng.choice([Fr(1), (b + 1) / 2 if (b + 1) / 2 - b > Fr("1e-3") else Fr(1)])
+                    e = Fr(dec6(e)) if e != 1 else e
+                    if e - b >= Fr("1e-9"):
+                        term2 = term if rng.random() < 0.6 else ("fx" if term != "fx" else "fy")
+                        val3 = val2 + Fr(rng.choice([-1, 1]) * rng.choice([15, 300]))
+                        ts.append(e)
+                        loads.append({"kind": "d", "term": term2, "local": local, "bar": bid, "t0": b, "v0": val3, "t1": e, "v1": val3 if rng.random() < 0.5 else val2})
         if positions_ok(ts):
             return loads
     return []
